@@ -498,7 +498,7 @@ Proof.
   { unfold gauge_ok, g; cbn. repeat split; auto; try constructor. intros d. apply amount_of_nonneg, pos_nonneg; auto. }
   constructor; cbn [s_gauges s_locks s_up s_act s_fin s_last_gauge s_bank]; auto.
   - apply set_gauge_Forall; auto.
-  - apply set_gauge_Forall; auto. unfold g, dur_ok; cbn. intros _. unfold cfg_ok in Hc. rewrite Forall_forall in Hc. auto.
+  - apply set_gauge_Forall; auto. unfold g, dur_ok; cbn. split; [intros _|lia]. unfold cfg_ok in Hc. rewrite Forall_forall in Hc. auto.
   - intros x. rewrite Cu. unfold in_range; cbn [s_last_gauge]. fold id. specialize (Ip x). unfold in_range in Ip.
     destruct (id =? x) eqn:E.
     + apply Z.eqb_eq in E; subst x. rewrite Z1, Z2, Z3. assert ((1 <=? id) = true) by (apply Z.leb_le; unfold id; lia).
@@ -546,7 +546,7 @@ Proof.
   { unfold gauge_ok, g; cbn. repeat split; auto; try constructor. intros d. apply amount_of_nonneg, pos_nonneg; auto. }
   constructor; cbn [s_gauges s_locks s_up s_act s_fin s_last_gauge s_bank]; auto.
   - apply set_gauge_Forall; auto.
-  - apply set_gauge_Forall; auto. unfold g, dur_ok; cbn. intros E0. lia.
+  - apply set_gauge_Forall; auto. unfold g, dur_ok; cbn. split; [intros E0|]; lia.
   - intros x. rewrite Cu. unfold in_range; cbn [s_last_gauge]. fold id. specialize (Ip x). unfold in_range in Ip.
     destruct (id =? x) eqn:E.
     + apply Z.eqb_eq in E; subst x. rewrite Z1, Z2, Z3. assert ((1 <=? id) = true) by (apply Z.leb_le; unfold id; lia).
